@@ -127,6 +127,11 @@ type UP4 struct {
 
 	p4RtTranslator *P4rtTranslator
 
+	// programmingMu serialises the updates of the forwarding state issued by the
+	// goroutines of the PFCP associations. It also guards the bookkeeping that has no
+	// lock of its own (counters, meters, ueAddrToFSEID, fseidToUEAddr).
+	programmingMu sync.Mutex
+
 	// TODO: create UP4Store object and move these fields there
 	counters []counter
 	// tunnelPeerMu guards concurrent R/W access to tunnel peers,
@@ -541,7 +546,12 @@ func (up4 *UP4) listenToDDNs() {
 			digestData := up4.p4client.GetNextDigestData()
 
 			ueAddr := binary.BigEndian.Uint32(digestData)
-			if fseid, exists := up4.ueAddrToFSEID[ueAddr]; exists {
+
+			up4.programmingMu.Lock()
+			fseid, exists := up4.ueAddrToFSEID[ueAddr]
+			up4.programmingMu.Unlock()
+
+			if exists {
 				notifier.Notify(fseid)
 			}
 		}
@@ -1486,6 +1496,9 @@ func (up4 *UP4) SendMsgToUPF(method upfMsgType, all PacketForwardingRules, updat
 		logger.PfcpLog.Errorln("UP4 server not connected")
 		return ie.CauseRequestRejected
 	}
+
+	up4.programmingMu.Lock()
+	defer up4.programmingMu.Unlock()
 
 	up4Log := logger.PfcpLog.With("method-type", method, "all", all, "updated-rules", updated)
 	up4Log.Debugln("sending PFCP message to UP4..")
